@@ -269,6 +269,20 @@ class Interp:
             if fn is bool:
                 (a,) = args
                 return self.truth(a)
+            import enum as _enum
+
+            if issubclass(fn, _enum.Enum) and len(args) == 1 and not kwargs and isinstance(args[0], FD):
+                src = args[0]
+                members, failing = [], []
+                for i, m in enumerate(src.domain):
+                    try:
+                        members.append(fn(m))
+                    except ValueError:
+                        members.append(None)
+                        failing.append(i)
+                if failing and self.decide(z3.Or(*[src.term == i for i in failing])):
+                    raise _Raise("ValueError")
+                return FD(members, src.term)
             if _all_concrete(args) and _all_concrete(kwargs.values()) and not args and not kwargs:
                 return fn()
             if args:
@@ -527,6 +541,13 @@ class Interp:
             idx = self._expr(n.slice, fr)
             if isinstance(obj, (tuple, list, dict, str)) and isinstance(idx, (int, str)):
                 return obj[idx]
+            if isinstance(obj, dict) and (isinstance(idx, FD) or (isinstance(idx, tuple) and any(isinstance(x, FD) for x in idx))):
+                return self._dict_lookup(obj, idx)
+            if isinstance(obj, dict) and _all_concrete([idx] if not isinstance(idx, tuple) else idx):
+                try:
+                    return obj[idx]
+                except KeyError:
+                    raise _Raise("KeyError")
             raise Unsupported("subscript")
         if isinstance(n, ast.Call):
             kwargs = {}
@@ -548,10 +569,50 @@ class Interp:
             return self.call_function(fn, args, kwargs)
         raise Unsupported(f"expression {type(n).__name__} in {fr.fn.__qualname__}")
 
+    def _dict_lookup(self, table: dict, key):
+        """table[key] where key is an FD or a tuple containing FDs: finite case split, result is an FD over the values"""
+        import itertools
+
+        parts = list(key) if isinstance(key, tuple) else [key]
+        spaces = [list(enumerate(p.domain)) if isinstance(p, FD) else [(None, p)] for p in parts]
+        values, conds, missing = [], [], []
+        for combo in itertools.product(*spaces):
+            k = tuple(v for _, v in combo)
+            k = k if isinstance(key, tuple) else k[0]
+            cond = [p.term == i for p, (i, _) in zip(parts, combo) if isinstance(p, FD)]
+            c = z3.And(*cond) if cond else z3.BoolVal(True)
+            try:
+                hit = k in table
+            except TypeError as e:
+                raise Unsupported(f"unhashable key {k!r}") from e
+            if not hit:
+                missing.append(c)
+                continue
+            values.append(table[k])
+            conds.append(c)
+        if missing and self.decide(z3.Or(*missing)):
+            raise _Raise("KeyError")
+        if not values:
+            raise _Raise("KeyError")
+        if any(isinstance(v, (FD, z3.ExprRef)) for v in values):
+            raise Unsupported("dict with symbolic values")
+        term = z3.IntVal(len(values) - 1)
+        for i in reversed(range(len(values) - 1)):
+            term = z3.If(conds[i], z3.IntVal(i), term)
+        return FD(values, term)
+
     def _getattr(self, obj, name):
         if hasattr(obj, "pz_getattr"):
             return obj.pz_getattr(name)
-        if isinstance(obj, (FD, z3.ExprRef, Opaque)):
+        if isinstance(obj, FD):
+            try:
+                vals = [getattr(m, name) for m in obj.domain]
+            except AttributeError as e:
+                raise Unsupported(f"attribute {name} of symbolic {obj!r}") from e
+            if any(callable(v) for v in vals):
+                raise Unsupported(f"method attribute {name} of symbolic {obj!r} used as a value")
+            return FD(vals, obj.term)
+        if isinstance(obj, (z3.ExprRef, Opaque)):
             raise Unsupported(f"attribute {name} of symbolic {obj!r}")
         return getattr(obj, name)
 
@@ -648,6 +709,22 @@ def sym_is(a, b):
             return False
         raise Unsupported("'is' on symbolic ints")
     return a is b
+
+
+def fd_index_term(fd: "FD", canonical: Sequence[Any], missing: int = -1) -> z3.ArithRef:
+    """z3 Int: index (in `canonical`) of the member an FD value denotes"""
+    def idx(m):
+        for k, c in enumerate(canonical):
+            if m is c:
+                return k
+        return missing
+
+    if len(fd.domain) == len(canonical) and all(a is b for a, b in zip(fd.domain, canonical)):
+        return fd.term
+    term = z3.IntVal(idx(fd.domain[-1])) if fd.domain else z3.IntVal(missing)
+    for i in reversed(range(len(fd.domain) - 1)):
+        term = z3.If(fd.term == i, z3.IntVal(idx(fd.domain[i])), term)
+    return term
 
 
 # --------------------------------------------------------------------------- helpers for callers
